@@ -5,7 +5,7 @@ HARNESSES = [
          assumptions=["replay_window: window invariant RI assumed in the pre-state and asserted in the post-state (inductive step); record epoch == expectedEpoch (the only situation in which the decoder consults the window); sequence numbers compared on their low 32 bits as the code does"],
          cases=[dict(name="step", defs={})]),
     COMMON["hs_dispatch"](only=("dtls12",)),
-    COMMON["dec12"]("epoch_gate", ["C16"], COMMON["dec12_cases"](None, 40, dtls_only=("dtls10", "dtls12n")) + COMMON["dec12_cases"](None, 56, tier="thorough")),
+    COMMON["dec12"]("epoch_gate", ["C16"], COMMON["dec12_cases"](None, 40, dtls_only=("dtls10", "dtls12n")) + COMMON["dec12_cases"](None, 40, tier="thorough", dtls_only=("dtls10n", "dtls12"))),
 ]
 PROPERTY = dict(level='model_checking',
     claim='Anti-replay window: inductive step with a ghost sequence number - a sequence number already accepted in the epoch is never accepted again and the window invariant is preserved; records of another epoch reach decrypt only in the documented catch-up cases; an epoch change resets the window. Handshake layer (parseSSLHandshake, DTLS): only the next message_seq (or a message_seq 0 hello) ever reaches a message parser; the fragment list invariant (non-empty, disjoint, inside the buffer, total = sum) is preserved by every step and reassembly terminates.',
